@@ -373,6 +373,7 @@ void process_msg(void)
 		return;
 	}
 
+	VERIF_TRACE(VK_DEQUEUE, msg, msg->dest, 0);
 	gvt_on_msg_extraction(msg->dest_t);
 
 	struct lp_ctx *lp = &lps[msg->dest];
